@@ -43,8 +43,12 @@ VARIABLES pid,     \* index of the program of the batch this behaviour executes
           how,     \* completion kind initiated/resumed by the last step ("" | brk | cnt | ret | exc)
           rd,      \* cells read by the last step
           wr,      \* cells (re)bound or unbound by the last step
-          steps
-vars == <<pid, ctrl, envs, cells, log, dec, status, cur, how, rd, wr, steps>>
+          steps,
+          xlog,    \* length of the effect log when the exception that is propagating / escaped was raised
+          xnode,   \* the node whose execution raised it (0 = none)
+          crossed, \* an exception has crossed an activation boundary (raised by a callee into its caller)
+          oc       \* "outside the class": an exception raised by a call was caught by a handler of the caller
+vars == <<pid, ctrl, envs, cells, log, dec, status, cur, how, rd, wr, steps, xlog, xnode, crossed, oc>>
 
 P        == Progs[pid]
 ND(n)    == P.nodes[n]
@@ -330,6 +334,12 @@ Step ==
   /\ status[1] = "run" /\ steps < MaxSteps
   /\ steps' = steps + 1 /\ UNCHANGED pid
   /\ IF Top.i <= Len(Top.blk) THEN Exec(Top.blk[Top.i]) ELSE Finish
+  /\ LET resumed == Top.i > Len(Top.blk) /\ Top.k = "finally"      \* a finally block re-raising its pending exception
+         cr == crossed \/ (how' = "exc" /\ NCalls(ctrl') < NCalls(ctrl) /\ status'[1] = "run") IN
+     /\ xlog' = IF how' = "exc" /\ ~resumed THEN Len(log') ELSE xlog
+     /\ xnode' = IF how' = "exc" /\ ~resumed THEN cur' ELSE xnode
+     /\ crossed' = cr
+     /\ oc' = (oc \/ (cr /\ how' = "exc" /\ status'[1] = "run" /\ ctrl'[Len(ctrl')].k = "handler"))
 
 Init ==
   /\ pid \in 1..Len(Progs)
@@ -342,12 +352,12 @@ Init ==
      /\ cells = [i \in 1..n |-> IF ord[i] \in Range(FN(1).params) THEN <<"t", 0, pidx(ord[i])>> ELSE Unbound]
   /\ ctrl = << Frame("call", FN(1).body, 0, 1) >>
   /\ log = <<>> /\ dec = <<>> /\ status = <<"run", NoneV>> /\ cur = 0 /\ steps = 0 /\ how = ""
-  /\ rd = {} /\ wr = {}
+  /\ rd = {} /\ wr = {} /\ xlog = 0 /\ xnode = 0 /\ crossed = FALSE /\ oc = FALSE
 
 Spec == Init /\ [][Step]_vars
 DecBound == Len(dec) <= MaxDec      \* CONSTRAINT: executions consuming more decisions are not explored further
 
 Terminal == status[1] # "run"
 (* reporting invariant: one JSON line per complete execution *)
-Emit == Terminal => PrintT(ToJson([pid |-> pid, dec |-> dec, log |-> log, out |-> status]))
+Emit == Terminal => PrintT(ToJson([pid |-> pid, dec |-> dec, log |-> log, out |-> status, xlog |-> xlog, xnode |-> xnode, oc |-> oc]))
 =============================================================================
